@@ -20,7 +20,7 @@ use super::*;
 //@ end
 
 pub proof fn lemma_auth_literals()
-    ensures //# C01 C03 name=literal_constants
+    ensures //# C01 C02 C03 C16 name=literal_constants
         AWS4_HMAC_SHA256.spec_bytes() == ALGO(),
         AWS4_REQUEST.spec_bytes() == AWS4_REQUEST_BYTES(),
         ISO8601_COMPACT_FORMAT@ == ISO_COMPACT(),
@@ -108,7 +108,7 @@ impl SigV4Authenticator {
         self.ts() < window_lo(server_timestamp, allowed_mismatch) ==> r is Err && r->Err_0 is SignatureDoesNotMatch, //# C04 C13 name=expired_is_signature_mismatch
         self.ts() > window_hi(server_timestamp, allowed_mismatch) ==> r is Err && r->Err_0 is SignatureDoesNotMatch, //# C04 C13 name=not_yet_valid_is_signature_mismatch
         (window_lo(server_timestamp, allowed_mismatch) <= self.ts() <= window_hi(server_timestamp, allowed_mismatch)) && split(self.cred(), 0x2f).len() != 5
-            ==> r is Err && r->Err_0 is IncompleteSignature, //# C03 C13 name=wrong_arity_is_incomplete_signature
+            ==> r is Err && r->Err_0 is IncompleteSignature, //# C03 C13 C14 name=wrong_arity_is_incomplete_signature
         (window_lo(server_timestamp, allowed_mismatch) <= self.ts() <= window_hi(server_timestamp, allowed_mismatch)) && split(self.cred(), 0x2f).len() == 5
             && !scope_ok(self.cred(), region.spec_bytes(), service.spec_bytes(), self.ts()) ==> r is Err && r->Err_0 is SignatureDoesNotMatch, //# C03 C13 name=scope_mismatch_is_signature_mismatch
         (window_lo(server_timestamp, allowed_mismatch) <= self.ts() <= window_hi(server_timestamp, allowed_mismatch))
